@@ -229,7 +229,9 @@ class VCSAPI:
         try:
             self('add_path', env=env, path=path)
         except sp.CalledProcessError as ex:
-            if "already tracked!" in str(ex):
+            # NOTE: str(ex) has the command (and so the path), not the output
+            stderr = (ex.stderr or b"").decode("utf-8", errors="replace")
+            if self.name == 'hg' and "already tracked!" in stderr:
                 # mercurial
                 return
             else:
